@@ -305,6 +305,10 @@ class ItemListCollection(Generic[KL], ABC):
         """
         if columns is None:
             columns = self.list_schema
+        if not columns:
+            # only empty lists, so none contributed a column type; Parquet cannot
+            # store a struct without fields, so declare the (empty) item ID column
+            columns = {"item_id": pa.int32()}
 
         for batch in chunked(self.items(), batch_size):
             keys = pa.Table.from_pylist([key_dict(k) for (k, _il) in batch])
